@@ -1450,7 +1450,7 @@ class SFSDistribution(PhaseTypeDistribution, ABC):
 
         accumulation = parallelize(
             func=lambda x: self.get_accumulation(*x),
-            data=[[k, i, end_times, rewards] for i in indices],
+            data=[[k, i, end_times, rewards, center, permute] for i in indices],
             desc=f"Calculating accumulation of {k}-moments",
             pbar=self.pbar,
             parallelize=self.parallelize
